@@ -49,6 +49,22 @@ theorem C15_table_finalize_guards :
     Gen.moduleScalesFlaggedOnly = true ∧ Gen.simScalesFlaggedOnly = true ∧
     Gen.simFinalizeGuarded = true ∧ Gen.simFinalizeSetsReady = true := by decide
 
+/-- rates whose `np.divide(..., where=n_alive > 0)` has no `out=` (known finding C15-rate-undefined-cmr) -/
+def knownUndefinedRates : List (String × String) := [("Deaths", "cmr"), ("Pregnancy", "cbr")]
+
+/-- Every rate that `finalize` computes after the scaling divides a SCALED integer count of the same module by the
+    SCALED sim-level `n_alive`, and is itself declared unscaled: the hypotheses of `C15_rates_final` hold for the
+    rows of the table (the formula shape itself is enforced by the extractor, which fails closed). -/
+theorem C15_table_rates :
+    (∀ q ∈ Gen.rateRows,
+      (∃ r ∈ Gen.resultRows, r.cls = q.cls ∧ r.name = q.source ∧ r.scale = true ∧ r.isFloat = false) ∧
+      (∃ r ∈ Gen.resultRows, r.cls = q.cls ∧ r.name = q.result ∧ r.scale = false)) ∧
+    (∃ r ∈ Gen.resultRows, r.cls = "Sim" ∧ r.name = "n_alive" ∧ r.scale = true) := by decide
+
+/-- Entries where nobody is alive are written only if the divide has an `out=` array, except the listed finding. -/
+theorem C15_table_rates_where :
+    ∀ q ∈ Gen.rateRows, q.hasOut = true ∨ (q.cls, q.result) ∈ knownUndefinedRates := by decide
+
 /-! ## Counts -/
 
 /-- **Counts (people).** For every history of recordings (any length ≤ npts, any slice variant), `n_alive[t]` is the
@@ -217,6 +233,78 @@ theorem C15_flows_cumsum (xs : List Rat) : cumsum xs = prefixSums 1 xs := by
   intro t _
   simp [Rat.zero_add]
 
+/-! ## Flows: agents created and removed -/
+
+/-- `n_alive` of the previous recording (the initial population before the first one) -/
+def prevAlive (act0 : List Person) (snaps : List (List Person)) : Nat :=
+  match snaps with
+  | [] => act0.length
+  | sn :: _ => nAliveOf sn
+
+theorem popRunRev_length (act0 : List Person) : ∀ hist : List PopStep,
+    (popRunRev act0 hist).2.length = prevAlive act0 (popRunRev act0 hist).1 := by
+  intro hist
+  cases hist with
+  | nil => rfl
+  | cons s earlier => simp [popRunRev, prevAlive, (popNext_spec _ _ _).1]
+
+/-- **Flow balance.** For every history of steps (any numbers of agents created, any death requests before and after
+    the recording): `n_alive[t] + removed[t] = n_alive[t-1] + created[t]`, where `removed[t]` are the active agents that
+    are not alive at the recording (they leave `auids` at the end of the step) and `created[t]` the agents grown. -/
+theorem C15_flows_balance (act0 : List Person) (earlier : List PopStep) (s : PopStep) :
+    nAliveOf (popSnapshot earlier.length (popRunRev act0 earlier).2 s) +
+      removedOf (popSnapshot earlier.length (popRunRev act0 earlier).2 s) =
+    prevAlive act0 (popRunRev act0 earlier).1 + s.born := by
+  rw [popSnapshot_balance, popRunRev_length]
+
+/-- **Totals.** Over a whole history: survivors + all agents removed = initial agents + all agents created. -/
+theorem C15_flows_total (act0 : List Person) : ∀ hist : List PopStep,
+    (popRunRev act0 hist).2.length + ((popRunRev act0 hist).1.map removedOf).sum =
+      act0.length + (hist.map (·.born)).sum := by
+  intro hist
+  induction hist with
+  | nil => simp [popRunRev]
+  | cons s earlier ih =>
+      have hb := popSnapshot_balance earlier.length (popRunRev act0 earlier).2 s
+      have hn := (popNext_spec earlier.length (popRunRev act0 earlier).2 s).1
+      simp only [popRunRev, List.map_cons, List.sum_cons, hn]
+      omega
+
+theorem popRunRev_noPending (act0 : List Person) (h0 : NoPending act0) : ∀ hist : List PopStep,
+    (∀ s ∈ hist, s.late = []) → NoPending (popRunRev act0 hist).2 := by
+  intro hist
+  induction hist with
+  | nil => intro _; exact h0
+  | cons s earlier ih =>
+      intro h
+      have h1 := ih (fun x hx => h x (List.mem_cons_of_mem _ hx))
+      simpa [popRunRev] using popNext_noPending earlier.length _ s h1 (h s (List.mem_cons_self ..))
+
+/-- **Death flow (partial).** If every death is requested before the death resolution of its step (no request after
+    the recording, none pending initially), `new_deaths[t]` (agents with `ti_dead == t`) is exactly the number of agents
+    removed at step `t`. -/
+theorem C15_flows_deaths_partial (act0 : List Person) (h0 : NoPending act0) (earlier : List PopStep) (s : PopStep)
+    (hl : ∀ x ∈ earlier, x.late = []) :
+    removedOf (popSnapshot earlier.length (popRunRev act0 earlier).2 s) =
+      newDeathsOf earlier.length (popSnapshot earlier.length (popRunRev act0 earlier).2 s) :=
+  removed_eq_newDeaths _ _ s (popRunRev_noPending act0 h0 earlier hl)
+
+/-- **Counterexample (as is).** A death requested after the recording of step 0 (`Pregnancy.finish_step`) is carried out
+    at step 1 and counted nowhere: one agent is removed at step 1 while `new_deaths[1] = 0`
+    (known finding C15-late-death-not-counted). -/
+theorem C15_flows_deaths_asis_counterexample :
+    ∃ (act0 : List Person) (earlier : List PopStep) (s : PopStep), NoPending act0 ∧
+      removedOf (popSnapshot earlier.length (popRunRev act0 earlier).2 s) ≠
+        newDeathsOf earlier.length (popSnapshot earlier.length (popRunRev act0 earlier).2 s) :=
+  ⟨[fresh, fresh], [⟨0, [], [0]⟩], ⟨0, [], []⟩, by intro p hp; simp [fresh] at hp; subst hp; exact ⟨rfl, rfl⟩, by decide +kernel⟩
+
+example : NoPending [fresh, fresh, fresh] ∧ (∀ x ∈ [(⟨2, [1], []⟩ : PopStep), ⟨1, [0, 3], []⟩], x.late = []) := by
+  refine ⟨?_, by decide⟩
+  intro p hp; simp [fresh] at hp; subst hp; exact ⟨rfl, rfl⟩
+
+example : (popRun [fresh, fresh, fresh] [⟨2, [1], []⟩, ⟨1, [0, 3], []⟩]).1.map (fun sn => (nAliveOf sn, removedOf sn)) =
+    [(4, 1), (3, 2)] := by decide +kernel
+
 /-! ## Scaling -/
 
 /-- **Scale once.** For every operation sequence the model accepts from a sim that is not yet finalised — writes,
@@ -262,6 +350,17 @@ theorem C15_rates_scale_invariant (units k : Rat) (hk : 0 < k) (new alive : List
 
 example : rateSeries (1/1000) ([2, 3, 1].map (· * 7)) ([100, 0, 50].map (· * 7)) = [some 20, none, some 20] := by
   decide +kernel
+
+/-- **Rates in finalize.** `cmr` / `cbr` are computed by `finalize` from the ALREADY SCALED `new` and `n_alive` series
+    (through `match_time_inds` when the module has its own timeline); for every positive factor they equal the rates
+    of the raw series, i.e. they are untouched by population scaling. -/
+theorem C15_rates_final (k : Rat) (hk : 0 < k) (raw : List Series) (r : RateSpec)
+    (hn : PlainScaled raw r.newKey) (ha : PlainScaled raw r.aliveKey) :
+    rateOf (finalStore true k raw) r = rateOf raw r :=
+  rateOf_final k hk raw r hn ha
+
+example : rateOf (finalStore true 7 [⟨"n_alive", true, none, [10, 0, 5]⟩, ⟨"deaths_new", true, none, [1, 2]⟩])
+    ⟨"deaths_cmr", "deaths_new", "n_alive", 1/1000, [0, 2]⟩ = some [some 100, some 400] := by decide +kernel
 
 /-! ## total_pop / pop_scale -/
 
@@ -349,5 +448,8 @@ example : (runOps exSim exOps).toOption.map view =
 
 example : errOf (runOps exSim (exOps ++ [.finalize])) = some .alreadyRun := by decide +kernel
 example : errOf (runOps exSim [.toDf]) = some .notReady := by decide +kernel
+
+example : PlainScaled exSim.store "deaths_new" ∧ PlainScaled exSim.store "n_alive" :=
+  ⟨⟨_, rfl, rfl, rfl⟩, ⟨_, rfl, rfl, rfl⟩⟩
 
 end StarsimModel.C15
